@@ -2,7 +2,7 @@
 # tools/seeded_run.sh <seeded-dir> <check args...>: run a check against a
 # scratch copy of /repo with the seeded change applied (VERIF_REPO), so that
 # /repo itself - which background runs may be using - is never touched.
-S="$1"; shift
+S="$(readlink -f "$1")"; shift
 D=/dev/shm/pykmip-seedrun-$$
 mkdir -p "$D"
 trap 'rm -rf "$D"' EXIT
